@@ -133,6 +133,14 @@ func checkC08(p *Program, r *Report) {
 				r.Add(rule, FnName(fn), ob.construct, p.InstrPos(ob.in), true, strings.Join(dedupStrings(how), ","))
 				continue
 			}
+			// a precondition of an unexported helper: provable at every call site?
+			if lok, ldesc := liftToCallSites(pr, ob.in, ob.goals, func(g *ssa.Function, glc *LinCtx) []Lin { return blockCacheFacts(p, g, glc) }); lok {
+				hows["call-site precondition"]++
+				r.Add(rule, FnName(fn), ob.construct, p.InstrPos(ob.in), true, ldesc)
+				continue
+			} else if ldesc != "" {
+				how = append(how, ldesc)
+			}
 			// exception table
 			if ex := findC08Exception(FnName(fn), ob.construct); ex != nil {
 				pok, pdesc := true, ""
@@ -674,6 +682,38 @@ func classifyLoop(p *Program, fn *ssa.Function, h *ssa.BasicBlock, body map[*ssa
 		pr := NewProver(p, fn, lc)
 		if ok, _ := pr.Prove(h, lc.Lin(S).scale(-1).addConst(1)); ok {
 			return "decreasing", fmt.Sprintf("%s decreases by %s ≥ 1 per iteration while %s ≥ %s (unsigned, no wrap)", exprString(ph), exprString(S), exprString(ph), exprString(S)), true
+		}
+	}
+	// (b3) shrinking slice: a loop-carried slice is re-sliced from a constant ≥ 1 on every back edge (x = x[k:]), which
+	// is only in range while len(x) ≥ k: its length strictly decreases, so the loop ends after at most len(x) rounds
+	for _, in := range h.Instrs {
+		ph, okP := in.(*ssa.Phi)
+		if !okP {
+			break
+		}
+		if _, isSl := ph.Type().Underlying().(*types.Slice); !isSl {
+			if bt, isB := ph.Type().Underlying().(*types.Basic); !isB || bt.Info()&types.IsString == 0 {
+				continue
+			}
+		}
+		okAll, n := true, 0
+		for i, e := range ph.Edges {
+			if !body[h.Preds[i]] {
+				continue
+			}
+			n++
+			sl, ok := e.(*ssa.Slice)
+			if !ok || sl.X != ssa.Value(ph) || sl.Low == nil {
+				okAll = false
+				break
+			}
+			if k, isK := constInt(sl.Low); !isK || k < 1 {
+				okAll = false
+				break
+			}
+		}
+		if okAll && n > 0 {
+			return "shrinking", fmt.Sprintf("%s is re-sliced from a positive constant on every iteration: its length strictly decreases", exprString(ph)), true
 		}
 	}
 	// (c) consuming loop: every iteration performs a call that consumes input and whose failure leaves the loop
